@@ -99,8 +99,18 @@ func (it *Interp) Step(t []string, op string) string {
 		if _, err := flow.LoadRules(rules); err != nil {
 			panic(err)
 		}
-		if len(flow.GetRulesOfResource(it.res)) != len(args)/3 {
-			panic("rules not in force")
+		// (whether the rules really are in force is what the following requests show; flow.GetRules is C13's subject)
+		it.loaded = true
+		return ""
+	case "clear":
+		if err := flow.ClearRules(); err != nil {
+			panic(err)
+		}
+		it.loaded = true
+		return ""
+	case "clearres":
+		if err := flow.ClearRulesOfResource(it.res); err != nil {
+			panic(err)
 		}
 		it.loaded = true
 		return ""
